@@ -171,3 +171,53 @@ func HarnessC15Race() {
 		verifrt.Assert(ab == 1 && e1 == nil && e2 == nil, "a duplicate import registered concurrently is refused or stored twice")
 	}
 }
+
+var zzMods6 = []string{"m0", "m1", "m2", "m3", "m4", "m5"}
+
+// HarnessC15Order: EVERY acyclic import graph over N modules (N = 5 quick, 6 thorough; an edge i -> j, "i imports j",
+// may exist only for j < i, each of the N(N-1)/2 possible edges chosen freely; the module names are permuted by a
+// symbolic rotation so that the name order is independent of the graph order): after the imports are registered the
+// topological order lists every module exactly once with every dependency before its importers, for both map
+// iteration directions.  Wide levels (two or more modules released at once, one of them releasing several others)
+// need at least five modules.
+func HarnessC15Order() {
+	n := 5
+	if verifrt.Thorough() {
+		n = 6
+	}
+	rot := verifrt.Choice("rot", n)
+	name := func(i int) string { return zzMods6[(i+rot)%n] }
+	verifrt.MapOrder(verifrt.Choice("maporder", 2))
+	ctx := zzNewCtx()
+	var adj [6][6]bool
+	for i := 1; i < n; i++ {
+		for j := 0; j < i; j++ {
+			if verifrt.Choice("e"+string(rune('0'+i))+string(rune('0'+j)), 2) == 1 {
+				adj[i][j] = true
+				err := ctx.AddDependency(name(i), name(j))
+				verifrt.Assert(err == nil, "an import that keeps the graph acyclic was rejected")
+			}
+		}
+	}
+	for i := 0; i < n; i++ {
+		ctx.AddModule(name(i), &Module{})
+	}
+	ctx.ComputeTopologicalOrder()
+	order := ctx.GetModuleNames()
+	verifrt.Assert(len(order) == n, "a module of an acyclic import graph is missing from (or repeated in) the build order")
+	pos := map[string]int{}
+	for i, m := range order {
+		_, dup := pos[m]
+		verifrt.Assert(!dup, "module listed twice in the build order")
+		pos[m] = i
+	}
+	for i := 0; i < n; i++ {
+		for j := 0; j < n; j++ {
+			if adj[i][j] {
+				pi, oki := pos[name(i)]
+				pj, okj := pos[name(j)]
+				verifrt.Assert(oki && okj && pj < pi, "a dependency is ordered after its importer")
+			}
+		}
+	}
+}
